@@ -175,7 +175,9 @@ pub fn panic_msg(e: &Box<dyn std::any::Any + Send>) -> String {
 }
 
 pub fn quiet_panics() {
-	std::panic::set_hook(Box::new(|_| {}));
+	if std::env::var("KV_LOUD").is_err() {
+		std::panic::set_hook(Box::new(|_| {}));
+	}
 }
 
 /// run `f`, capturing a panic as data
